@@ -436,7 +436,8 @@ def _main(prop, engine, tier, seed0, runs, budget, selftest_seeds, t0, a, techni
             "evaluations": total,
             "distinct_nontrivial": len(fps),
             "rule": engine.RULE,
-            "samples": [{"config": s.get("config"), "ops": s.get("ops"),
+            "samples": [{"config": s.get("config"), "ops": (s.get("ops") or [])[:40],
+                         "ops_total": len(s.get("ops") or []),
                          "sched_seed": s.get("sched_seed")} for s in samples],
             "technique": technique,
             "fault_free_runs": agg_ff.runs,
